@@ -36,6 +36,10 @@ def value_equal(oid, kind, got, want, pc, model_vars=(), tol=None, timeout=None)
         rng = [z3.And(i >= 0, i < I(n)) for i, n in zip(idx, want.shape)]
         a = got.at(idx)
         b = want.at(idx)
+        if isinstance(a, TV) or isinstance(b, TV):
+            a, b = TV.of(a), TV.of(b)
+            obs.append(solve.prove(oid + '/value[term]', kind, list(pc) + rng, a.e == b.e, list(model_vars) + idx, timeout))
+            return obs
         obs += solve.gs_equal(oid + '/value', kind, lift(a), lift(b), pc, rng, tol, list(model_vars) + idx, timeout)
         return obs
     if want is None or isinstance(want, (str, bool)):
@@ -70,7 +74,7 @@ def linear_obs(oid, value, name='LINEAR'):
 
 
 def verify_function(oid, modkey, qual, mkargs, base, contract, callee_contracts, model_vars=(),
-                    kind='POST', tol=None, timeout=None, check_linear=True, max_paths=400, loop_contracts=None):
+                    kind='POST', tol=None, timeout=None, check_linear=True, max_paths=400, loop_contracts=None, check_dtype=False):
     """Explore every path of the real body of modkey:qual on generic arguments and
     compare with the contract.  Returns (obligations, info)."""
     obs = []
@@ -80,6 +84,7 @@ def verify_function(oid, modkey, qual, mkargs, base, contract, callee_contracts,
         c = ctx()
         it = Interp(contracts=callee_contracts, loop_contracts=loop_contracts)
         args, kw = mkargs()
+        it.last_args = (args, kw)
         # the contract's own requires are the preconditions of the function under
         # verification: assumed here, proved at call sites
         c.assume_requires = True
@@ -127,11 +132,85 @@ def verify_function(oid, modkey, qual, mkargs, base, contract, callee_contracts,
             continue
         obs += value_equal(pid, kind, got[1], want[1], c.pc, model_vars, tol, timeout)
         obs += solve.safety_obligations(pid, c, model_vars, timeout)
+        obs += frame_obs(pid, c, it.last_args)
+        if check_dtype or CFG['dtype']:
+            obs += dtype_obs(pid, c, got[1], want[1])
         if check_linear:
             obs += linear_obs(pid, got[1])
         if c.pos != pos0:
             raise Unsupported('decision taken while evaluating element closures')
     return obs, info
+
+
+def reachable_storages(v, acc=None, seen=None):
+    """storages reachable from a value (tensors inside tuples, lists, objects)"""
+    acc = {} if acc is None else acc
+    seen = set() if seen is None else seen
+    if id(v) in seen:
+        return acc
+    seen.add(id(v))
+    if isinstance(v, STensor):
+        acc[v.base.sid] = v.base
+    elif isinstance(v, (tuple, list)):
+        for q in v:
+            reachable_storages(q, acc, seen)
+    elif hasattr(v, 'a') and isinstance(getattr(v, 'a', None), dict):
+        for q in v.a.values():
+            reachable_storages(q, acc, seen)
+    return acc
+
+
+def frame_obs(pid, c, args, e0=0):
+    """FRAME: no in-place write reaches a storage owned by an argument / module buffer (or one that a
+    .contiguous() result may share with it); STATE: no attribute of a constructed module is assigned;
+    no module-level object is written"""
+    owned = reachable_storages(args)
+    bad = []
+    for e in c.effects[e0:]:
+        if e[0] == 'write':
+            st = e[1]
+            chain = [st] + list(st.may_alias)
+            for q in chain:
+                if q.sid in owned:
+                    bad.append('in-place %s on storage of %s%s' % (e[2], q.owner, '' if q is st else ' (through a .contiguous() result)'))
+        elif e[0] == 'attr-write':
+            bad.append('module attribute %s assigned outside __init__' % e[2])
+        elif e[0] == 'global-write':
+            bad.append('module-level object %s written' % e[1])
+    return [Ob(pid + '/FRAME[arguments, buffers and module state are not written]', 'FRAME', 'refuted' if bad else 'proved',
+               'effect-analysis', 0, {'what': bad[:4], 'model': {}} if bad else {'writes_seen': len([e for e in c.effects[e0:] if e[0] == 'write'])})]
+
+
+CFG = {'dtype': False}     # the dtype / stride ghosts are claimed by C16 only
+
+
+def dtype_obs(pid, c, value, want=None, n0=0):
+    """DTYPE: every returned tensor has the dtype of the input; operands of different dtypes never meet"""
+    from . import prims
+    obs = []
+    ts = []
+
+    def walk(v):
+        if isinstance(v, STensor):
+            ts.append(v)
+        elif isinstance(v, (tuple, list)):
+            for q in v:
+                walk(q)
+    walk(value)
+    got_ts = list(ts)
+    del ts[:]
+    walk(want)
+    exp = [t.meta.get('dtype', prims.DT_IN) for t in ts] if want is not None and len(ts) == len(got_ts) else [prims.DT_IN] * len(got_ts)
+    bad = ['%r (expected %r)' % (t.meta.get('dtype'), e) for t, e in zip(got_ts, exp)
+           if t.ndim and not (t.meta.get('dtype', prims.DT_IN) == e)]
+    mm = [n[1] for n in c.notes[n0:] if n[0] == 'dtype-mismatch']
+    ok = not bad and not mm
+    obs.append(Ob(pid + '/DTYPE[outputs have the input dtype, no mixed-dtype operation]', 'DTYPE', 'proved' if ok else 'refuted', 'ghost', 0,
+                  {} if ok else {'what': (bad + mm)[:4], 'model': {}}))
+    vw = [n[1] for n in c.notes[n0:] if n[0] == 'view-on-noncontiguous']
+    obs.append(Ob(pid + '/STRIDE[every .view is applied to a known-contiguous tensor]', 'DTYPE', 'proved' if not vw else 'refuted', 'ghost', 0,
+                  {} if not vw else {'what': vw[:3], 'model': {}}))
+    return obs
 
 
 def run_group(fn, *a, **k):
